@@ -122,7 +122,7 @@ Ltac np_break :=
          end; cbn [fst]; try discriminate.
 
 Section P.
-  Variable avc_parse : str -> option (N * N * (N * N * N)).
+  Variable avc_parse : str -> option avc_info.
   Variable hevc_parse : str -> option (N * N * list N).
 
   Lemma set_desc_no_panic t d : desc_valid d = true -> fst (set_desc avc_parse hevc_parse t d) <> OPanic.
